@@ -18,6 +18,10 @@ def case_for_oracle(rng):
     if rng.random() < 0.35:
         c['refine'] = True
         c['iters'] = rng.choice([20, 40, 60, 100]); c['eps'] = rng.choice([1e-7, 1e-3, 0.05])
+    elif rng.random() < 0.4 and c['iters'] >= 5:      # batches of several iterations first (their total within the budget), then Solve: the budget still binds
+        k = rng.randint(2, max(2, c['iters'] // 2))
+        c['pre'] = [k] if rng.random() < 0.5 else [max(1, k // 2), k - max(1, k // 2)]
+        c['eps'] = min(c['eps'], 1e-6)      # so that the budget, not the accuracy, ends the run
     return c
 
 
